@@ -135,6 +135,31 @@ class Layout:
                 self.bounds_param = n.value.id
         if set(self.symbols.values()) != {"nOS", "nS", "nP"}:
             raise AnalysisError(f"cannot bind layout size symbols: {self.symbols}")
+        # the layout function may receive the bounds (or a size) as an argument instead of
+        # reading the class attribute: bind its parameters at its call site
+        self.bounds_names = set()
+        self.local_forms = {}
+        lay = self.layout_fn
+        for fi in self.hv.methods.values():
+            for n in ast.walk(fi.node):
+                if isinstance(n, ast.Call) and isinstance(n.func, ast.Attribute) \
+                        and n.func.attr == lay.name:
+                    acts = dict(zip(lay.params[1:], n.args))
+                    acts.update({kw.arg: kw.value for kw in n.keywords if kw.arg})
+                    for p, a in acts.items():
+                        if (isinstance(a, ast.Name) and fi is init
+                                and a.id == getattr(self, "bounds_param", None)) \
+                                or (isinstance(a, ast.Attribute)
+                                    and a.attr == "address_space_bounds"):
+                            self.bounds_names.add(p)
+                        elif isinstance(a, ast.Attribute) and a.attr in self.symbols:
+                            self.local_forms[p] = lf(**{self.symbols[a.attr]: 1})
+                        elif fi is init and isinstance(a, ast.Call) \
+                                and isinstance(a.func, ast.Name) and a.func.id == "len" \
+                                and len(a.args) == 1 and isinstance(a.args[0], ast.Name):
+                            act = actual.get(a.args[0].id)
+                            if isinstance(act, ast.Attribute) and act.attr in sym_of_host_attr:
+                                self.local_forms[p] = lf(**{sym_of_host_attr[act.attr]: 1})
 
     def _lin(self, e):
         if isinstance(e, ast.Constant) and isinstance(e.value, int):
@@ -146,10 +171,13 @@ class Layout:
             if e.attr in self.symbols:
                 return lf(**{self.symbols[e.attr]: 1})
             return {f"?{e.attr}": 1}
-        if isinstance(e, ast.Subscript) and isinstance(e.value, ast.Attribute) \
-                and e.value.attr == "address_space_bounds" \
+        if isinstance(e, ast.Subscript) and (
+                (isinstance(e.value, ast.Attribute) and e.value.attr == "address_space_bounds")
+                or (isinstance(e.value, ast.Name) and e.value.id in self.bounds_names)) \
                 and isinstance(e.slice, ast.Constant) and e.slice.value in (0, 1):
             return lf(**{f"B{e.slice.value}": 1})
+        if isinstance(e, ast.Name) and e.id in self.local_forms:
+            return dict(self.local_forms[e.id])
         if isinstance(e, ast.BinOp) and isinstance(e.op, (ast.Add, ast.Sub)):
             return lf_add(self._lin(e.left), self._lin(e.right),
                           1 if isinstance(e.op, ast.Add) else -1)
@@ -174,6 +202,24 @@ class Layout:
                 self.assign_nodes[st.targets[0].attr] = st
             elif isinstance(st, ast.Expr) and isinstance(st.value, ast.Constant):
                 continue
+            elif isinstance(st, ast.Assign) and len(st.targets) == 1 \
+                    and isinstance(st.targets[0], ast.Name):
+                # explaining local: `bounds = cls.address_space_bounds`, `base = b0 + b1`
+                v = st.value
+                if (isinstance(v, ast.Attribute) and v.attr == "address_space_bounds") \
+                        or (isinstance(v, ast.Name) and v.id in self.bounds_names):
+                    self.bounds_names.add(st.targets[0].id)
+                else:
+                    self.local_forms[st.targets[0].id] = self._lin(v)
+            elif isinstance(st, ast.Assign) and len(st.targets) == 1 \
+                    and isinstance(st.targets[0], ast.Tuple) and len(st.targets[0].elts) == 2 \
+                    and all(isinstance(x, ast.Name) for x in st.targets[0].elts) \
+                    and ((isinstance(st.value, ast.Attribute)
+                          and st.value.attr == "address_space_bounds")
+                         or (isinstance(st.value, ast.Name)
+                             and st.value.id in self.bounds_names)):
+                for i, x in enumerate(st.targets[0].elts):
+                    self.local_forms[x.id] = lf(**{f"B{i}": 1})
             else:
                 # any other statement shape in the layout function is not understood
                 self.assign_nodes.setdefault("?other", st)
